@@ -166,6 +166,22 @@ def _core(ck, agg):
     nsc = 0
     completed_states = []
     last_pols = set()
+    # R06.10 a new reassembling queue starts with nothing cached: the constructor establishes the sentinel the fragment branches test (the
+    # scenarios below *assume* it for the empty cache) - in both construction forms (fresh, and moving the frames of another queue)
+    f_init = ck.prog.method(cls, "__init__")
+    for arg_kind in ("none", "queue"):
+        st_i = State()
+        new_q = st_i.alloc("obj", cls=cls, label="new")
+        arg = Const(None) if arg_kind == "none" else net.sym_queue(st_i, ck.prog, "FrameQueue", nframes=1, max_size=3, label="src")
+        outs_i, _it = net.run(ck, f_init, cls, new_q, [arg], st_i)
+        for o_ in outs_i:
+            if o_.kind != "return":
+                continue
+            c_ = o_.state.heap[new_q.ident].fields.get(cf)
+            h_ = o_.state.heap[c_.ident].fields.get("header") if isinstance(c_, Ref) else None
+            v_ = o_.state.heap[h_.ident].fields.get("from_node") if isinstance(h_, Ref) else None
+            agg.add("R06.10", f_init, "a new FrameQueueFrag starts with the 'nothing cached' sentinel", sentinel_real is False or (isinstance(norm(v_), Const) and norm(v_).v is None) if v_ is not None else False,
+                    "FrameQueueFrag(%s): the cache's origin starts as %r - a stray MORE/LAST fragment naming that origin and the constructor's frame id is spliced onto an empty cache" % ("" if arg_kind == "none" else "queue", v_))
     for kind, typ in (("FIRST", K["MSG_FRAG_FIRST"]), ("MORE", K["MSG_FRAG_MORE"]), ("LAST", K["MSG_FRAG_LAST"]), ("user", 65), ("user", 0)):
         for cache_from in (["int"] + (["none"] if sentinel_real else [])):
             nsc += 1
@@ -282,6 +298,16 @@ def _core(ck, agg):
                                 (d.c * d.terms.get("cache.header.reserved", 0) == -1) for op, pol, d, ev in rel)
                     agg.add("R06.2", f, "a MORE fragment is spliced only when its counter is the cached counter - 1", okseq,
                             "%s: no test `cached reserved - 1 == fragment reserved` holds on the splicing path" % label, sp[0].node if sp else None)
+                    # R06.11 the counter advances: after an accepted MORE fragment the cached counter is that fragment's, so the next one
+                    # in sequence (counter - 1) is accepted in turn - otherwise no message of four or more fragments ever completes
+                    if sp:
+                        from .c12 import _src
+                        c2_ = out.state.heap[q.ident].fields[cf]
+                        h_ = out.state.heap[c2_.ident].fields.get("header") if isinstance(c2_, Ref) else None
+                        cr_ = out.state.heap[h_.ident].fields.get("reserved") if isinstance(h_, Ref) else None
+                        okadv = cr_ is not None and _src(cr_) == frozenset({"frame.header.reserved"})
+                        agg.add("R06.11", f, "an accepted MORE fragment advances the cached counter to its own", okadv,
+                                "%s: after the splice the cached counter is %r, not the fragment's - the next fragment in sequence is refused and messages of four or more fragments never complete" % (label, cr_))
                 else:
                     pol = None
                     for ev in out.trace:
